@@ -14,7 +14,7 @@
                            non-huge and point to owned tables); allocator frames are fresh and distinct.
       pages with top-level index 511 (the recursive window itself) are outside the quantifier. *)
 From Coq Require Import NArith List Bool.
-From FF Require Import Lib.Word Gen.Consts_mm_vmm Vmm.Pt Vmm.PtArith Vmm.PtTree Vmm.PtMap Vmm.PtOps Vmm.PtTheorems Vmm.PtInit Vmm.PtPdt Vmm.PtTemp.
+From FF Require Import Lib.Word Gen.Consts_mm_vmm Vmm.Pt Vmm.PtArith Vmm.PtTree Vmm.PtMap Vmm.PtOps Vmm.PtTheorems Vmm.PtInit Vmm.PtPdt Vmm.PtTemp Vmm.PtHist.
 Import ListNotations.
 Local Open Scope N_scope.
 
@@ -67,7 +67,9 @@ Theorem C04_map_ok :
       (exists n, orc s' = skipn n (orc s) /\
                  forall f, own' f = own f \/ (own f = None /\ In f (firstn n (orc s)) /\ f <> 0)) /\
       (forall f p i, own f = Some p -> p ++ [i] <> firstn (S (length p)) (ixs page) -> ent s' f i = ent s f i) /\
-      (forall f p i, own f = Some p -> (length p < 3)%nat -> hw_P (ent s f i) = true -> ent s' f i = ent s f i).
+      (forall f p i, own f = Some p -> (length p < 3)%nat -> hw_P (ent s f i) = true -> ent s' f i = ent s f i) /\
+      (length (orc s) <= length (orc s') + 3)%nat /\
+      ((3 <= length (orc s))%nat -> Forall (fun x => x <> 0) (firstn 3 (orc s)) -> err = 0).
 Proof. exact map_ok. Qed.
 Print Assumptions C04_map_ok.
 
@@ -130,7 +132,9 @@ Theorem C04_pdt_map_inactive :
          (forall q, hw_idx q 0 <> 511 -> translation s3 T q = translation s T q) /\
          flog s3 = lea_of A :: lea_of A :: flog s) /\
       same_env s s3 /\
-      (exists n, orc s3 = skipn n (orc s) /\ forall f, own' f = own f \/ (own f = None /\ In f (firstn n (orc s)) /\ f <> 0)).
+      (exists n, orc s3 = skipn n (orc s) /\ forall f, own' f = own f \/ (own f = None /\ In f (firstn n (orc s)) /\ f <> 0)) /\
+      (length (orc s) <= length (orc s3) + 3)%nat /\
+      ((3 <= length (orc s))%nat -> Forall (fun x => x <> 0) (firstn 3 (orc s)) -> err = 0).
 Proof. exact pdt_map_inactive. Qed.
 Print Assumptions C04_pdt_map_inactive.
 
@@ -173,6 +177,22 @@ Theorem C04_pdt_init :
          translation s' A temp_page = None /\
          (forall f i, own1 f = None -> f <> F -> ent s' f i = ent s f i)) /\
       (err <> 0 -> Inv s' A A own1 /\ (forall q, hw_idx q 0 <> 511 -> translation s' A q = translation s A q) /\
-                   (forall f i, own1 f = None -> ent s' f i = ent s f i)).
+                   (forall f i, own1 f = None -> ent s' f i = ent s f i)) /\
+      (length (orc s) <= length (orc s') + 3)%nat /\
+      ((3 <= length (orc s))%nat -> Forall (fun x => x <> 0) (firstn 3 (orc s)) -> err = 0).
 Proof. exact pdt_init_spec. Qed.
 Print Assumptions C04_pdt_init.
+
+(** histories: any sequence of Map / Unmap / Translate requests on the active address space (pages outside
+    the recursive window, frames below 2^40, any flag bits outside bits 12-51, any allocator behaviour)
+    runs without a stray access and refines the abstract machine [arun]: page -> (frame, flags) of the
+    most recent successful Map, nothing after an Unmap; every Translate answers what the abstract map
+    holds at that point; a failed request changes no translation. *)
+Theorem C04_histories :
+  forall A ops s own m,
+    Inv s A A own -> prot s = false -> Forall hdom ops -> refines s A m ->
+    exists s' rs own',
+      hrun ops s = Ok (s', rs) /\ Inv s' A A own' /\ prot s' = false /\
+      refines s' A (arun ops rs m) /\ answers_ok ops rs m.
+Proof. exact histories. Qed.
+Print Assumptions C04_histories.
